@@ -121,6 +121,7 @@ int main(int argc, char **argv) {
       else {
         a = mk(f[2], f[3]); locals["a"] = a; has_a = true;
         if (route == "foldr") script = "a " + op + " " + literal(f[4], f[5]);
+        else if (route == "self") script = "a " + op + " a";      // one variable on both sides (what a self-comparison fold would touch)
         else if (route == "pre") script = op + "a";
         else if (route == "fnu") script = "`" + op + "`(a)";
         else {
